@@ -161,20 +161,24 @@ def check_case(case):
             for side, tot in ((s.producing_flux, pt), (s.consuming_flux, ct)):
                 if tot > 0 and abs(side["percent"].sum() - 1) > 1e-9:
                     fails.append(f"{met.id}: percentages sum to {side['percent'].sum()}")
-        # rendering
+        # rendering: every way of rendering, repeatedly, on the same summary objects; rendering must not alter the tables
+        def snap(summary):
+            return {k: v.to_json() for k, v in vars(summary).items() if isinstance(v, pd.DataFrame)}
         try:
-            ms.to_string()
-            ms.to_html()
-            ms.to_frame()
-            for met, s, _ in msums:
-                s.to_string()
-                s.to_html()
-                s.to_frame()
-            for r in list(m.reactions)[:3]:
-                rs = r.summary(solution=sol, fva=fva)
-                rs.to_string()
-                rs.to_html()
-                rs.to_frame()
+            objs = [ms] + [s for _, s, _ in msums] + [r.summary(solution=sol, fva=fva) for r in list(m.reactions)[:3]]
+            for o in objs:
+                before = snap(o)
+                first = None
+                for rep in range(2):
+                    texts = [o.to_string(), o.to_string(names=True), o.to_html(), o.to_html(names=True), o.to_string(threshold=1e-3, float_format=".4G"),
+                             o.to_string(), o._repr_html_(), str(o)]
+                    o.to_frame()
+                    if first is None:
+                        first = texts
+                    elif texts != first:
+                        fails.append(f"{type(o).__name__}: rendering a second time gives different text")
+                if snap(o) != before:
+                    fails.append(f"{type(o).__name__}: rendering changed the tables of the summary")
         except Exception as e:
             fails.append(f"rendering raised {type(e).__name__}: {e}")
     return fails, "ran"
@@ -183,8 +187,18 @@ def check_case(case):
 def gen_case(rng):
     spec = gen_bounded_spec(rng)
     spec["dir"] = "max"
+    solution = rng.choice(["given", "given", "optimize", "default"])
+    if solution != "default" and rng.random() < 0.4:
+        # a second (and third) boundary reaction on a metabolite that already has an exchange (not with a defaulted solution: the pFBA optimum
+        # is then not unique and the summary's own solve cannot be reproduced)
+        ex = [r for r in spec["rxns"] if r["id"].startswith("EX_")]
+        if ex:
+            r0 = rng.choice(ex)
+            met = list(r0["st"])[0]
+            for pre in rng.sample(["DM_", "SK_"], rng.randint(1, 2)):
+                spec["rxns"].append({"id": pre + met, "st": {met: rng.choice(["-1", "1"])}, "lb": rng.choice(["0", "-10"]), "ub": rng.choice(["10", "1000"]), "rule": ""})
     rids = [r["id"] for r in spec["rxns"]]
-    case = {"spec": spec, "solution": rng.choice(["given", "given", "optimize", "default"]), "fva": rng.choice(["none", "none", "frame", "float"])}
+    case = {"spec": spec, "solution": solution, "fva": rng.choice(["none", "none", "frame", "float"])}
     if case["solution"] == "given":
         case["fluxes"] = {r: canon.num(F(rng.choice([0, 0, 1, -1, 2, -3, 5, -8, 13]) , rng.choice([1, 2, 4]))) for r in rids}
     if case["fva"] == "frame":
